@@ -1023,17 +1023,24 @@ func (d *decoderState) consumeObject(flags *jsonwire.ValueFlags, pos, depth int)
 		if !d.Flags.Get(jsonflags.AllowDuplicateNames) && !names.insertQuoted(quotedName, flags2.IsVerbatim()) {
 			return pos - n, wrapWithObjectName(ErrDuplicateName, quotedName)
 		}
+		// A later fetch may move the buffered data, so remember where the name is
+		// by its absolute offset and slice it out again when an error needs it.
+		nameAbsPos, nameLen := d.baseOffset+int64(pos-n), n
+		relocatedName := func() []byte {
+			i := int(nameAbsPos - d.baseOffset)
+			return d.buf[i : i+nameLen]
+		}
 
 		// Handle after name.
 		pos += jsonwire.ConsumeWhitespace(d.buf[pos:])
 		if d.needMore(pos) {
 			if pos, err = d.consumeWhitespace(pos); err != nil {
-				return pos, wrapWithObjectName(err, quotedName)
+				return pos, wrapWithObjectName(err, relocatedName())
 			}
 		}
 		if d.buf[pos] != ':' {
 			err := jsonwire.NewInvalidCharacterError(d.buf[pos:], "after object name (expecting ':')")
-			return pos, wrapWithObjectName(err, quotedName)
+			return pos, wrapWithObjectName(err, relocatedName())
 		}
 		pos++
 
@@ -1041,12 +1048,12 @@ func (d *decoderState) consumeObject(flags *jsonwire.ValueFlags, pos, depth int)
 		pos += jsonwire.ConsumeWhitespace(d.buf[pos:])
 		if d.needMore(pos) {
 			if pos, err = d.consumeWhitespace(pos); err != nil {
-				return pos, wrapWithObjectName(err, quotedName)
+				return pos, wrapWithObjectName(err, relocatedName())
 			}
 		}
 		pos, err = d.consumeValue(flags, pos, depth)
 		if err != nil {
-			return pos, wrapWithObjectName(err, quotedName)
+			return pos, wrapWithObjectName(err, relocatedName())
 		}
 
 		// Handle after value.
